@@ -344,10 +344,36 @@ class TermGen:
             terms.append(v if c == 1 else T('app', sort, head='*', args=[T('num', sort, val=Fraction(c)), v]))
         lhs = terms[0] if len(terms) == 1 else T('app', sort, head='+', args=terms)
         rhs = T('num', sort, val=Fraction(r.randint(-6, 8)))
-        if sort == 'Real' and r.random() < 0.15:
-            rhs = T('num', sort, val=r.choice(SMALL_FRACS))
+        if sort == 'Real' and r.random() < 0.35:
+            # bounds less than 1 apart (strict bound next to a close non-strict one: the model needs a small enough delta)
+            rhs = T('num', sort, val=r.choice(SMALL_FRACS + [Fraction(-1, 10), Fraction(9, 10), Fraction(1, 4), Fraction(0), Fraction(1, 100)]))
         op = r.choice(['<=', '>=', '<=', '>=', '<', '>', '='])
         return T('app', 'Bool', head=op, args=[lhs, rhs] if r.random() < 0.85 else [rhs, lhs])
+
+    # ---------------------------------------------------------------- dense array atoms ("ax-dense" mode)
+    def ax_atom(self):
+        r = self.rng
+        asort, idx, elt = self.sig.array
+        arrs = self.sig.consts[asort]
+
+        def leaf(sort):
+            if sort in ('Int', 'Real'):
+                return self.var(sort) if r.random() < 0.8 else T('num', sort, val=Fraction(r.randint(0, 2)))
+            return self.var(sort)
+        a, b = T('var', asort, val=r.choice(arrs)), T('var', asort, val=r.choice(arrs))
+        c = r.random()
+        if c < 0.3:
+            st = T('app', asort, head='store', args=[b, leaf(idx), leaf(elt)])
+            if r.random() < 0.25:
+                st = T('app', asort, head='store', args=[st, leaf(idx), leaf(elt)])
+            return T('app', 'Bool', head='=', args=[a, st] if r.random() < 0.5 else [st, a])
+        if c < 0.5:
+            return T('app', 'Bool', head='=', args=[leaf(idx), leaf(idx)])
+        if c < 0.8:
+            return T('app', 'Bool', head='=', args=[T('app', elt, head='select', args=[a, leaf(idx)]), T('app', elt, head='select', args=[b, leaf(idx)])])
+        if c < 0.92:
+            return T('app', 'Bool', head='=', args=[T('app', elt, head='select', args=[a, leaf(idx)]), leaf(elt)])
+        return T('app', 'Bool', head='=', args=[a, b])
 
     # ---------------------------------------------------------------- atoms and Boolean structure
     def atom(self, d):
